@@ -17,7 +17,7 @@ pub const DEF: PropDef = PropDef {
     id: "C15",
     run,
     oracle,
-    rule: "cases = (cache-preloading calls, measured call) from: F1 hostile headers over short bodies (every count/length field of every version set to 0xffff/0x7fff); F2 buffers packed with n minimal packets per version; F3 one packet with n minimal sets/flowsets (empty, one record) under small and 1000-field cached templates; F4 one set with n minimal records; F5 templates with n fields plus matching data; F6 templates with z zero-length fields x r records (z*r <= 2e5); F7 failing records (V9 retry loop); F1d chains of minimal messages whose data (variable-length prefix) or template (fixed width 65534; enterprise, string, octet-array and untyped elements) announces bytes the set does not hold; F9 decode-then-discard; F10 one packet whose n sets redefine (same kind / other kind) or carry data for n distinct ids of a cache that earlier calls filled with 6000 templates (cost must not depend on what is cached); F8 random hostile and conformant histories; sizes up to the 65,535-byte limit. Oracle per measured call: S1 alloc_bytes <= K0 + K1*|buf| + K2*result_size; S2 result_size <= K0 + K3*(|buf| + wire size of the cached templates); S3 (metamorphic, per family) cost(2n) <= 2.5*cost(n) + K0 for alloc_bytes, alloc_calls and result_size at successive doublings up to the limit. S5 (CPU work, counted as instructions executed inside the measured parse_bytes call by valgrind/callgrind on a helper binary - exact, no clock involved; per family at its maximal size n): instructions(n) <= 6 x instructions(n/4) + 3e6 (linear 4x, quadratic 16x); S6 (families F10, a packet of 500 sets): instructions against the 6000-template cache <= 2 x instructions against a cache holding only the 500 ids used + 5e5. K0 = 128 KiB; K1, K2, K3 calibrated once (4x the maximum observed on the unchanged tree over the generated cases that avoid open findings; recorded in the source). A bound that fails only by what the open finding 'zero-length fields are materialised per record' explains (budget computed from the templates in effect and the set sizes) is forgiven with that signature; anything else is a violation. non-trivial = |buf| >= 1 KiB, or a header field announces >= 16x more records/bytes than present, or the case is an S3 doubling pair; distinct by digest.",
+    rule: "cases = (cache-preloading calls, measured call) from: F1 hostile headers over short bodies (every count/length field of every version set to 0xffff/0x7fff); F2 buffers packed with n minimal packets per version; F3 one packet with n minimal sets/flowsets (empty, one record) under small and 1000-field cached templates; F4 one set with n minimal records; F5 templates with n fields plus matching data; F6 templates with z zero-length fields x r records (z*r <= 2e5); F7 failing records (V9 retry loop); F1d chains of minimal messages whose data (variable-length prefix) or template (fixed width 65534; enterprise, string, octet-array and untyped elements) announces bytes the set does not hold; F9 decode-then-discard; F10 one packet whose n sets redefine (same kind / other kind) or carry data for n distinct ids of a cache that earlier calls filled with 6000 templates (cost must not depend on what is cached); F8 random hostile and conformant histories; sizes up to the 65,535-byte limit. Oracle per measured call: S1 alloc_bytes <= K0 + K1*|buf| + K2*result_size; S2 result_size <= K0 + K3*(|buf| + wire size of the cached templates); S3 (metamorphic, per family) cost(2n) <= 2.5*cost(n) + K0 for alloc_bytes, alloc_calls and result_size at successive doublings up to the limit. S5 (CPU work, counted as instructions executed inside the measured parse_bytes call by valgrind/callgrind on a helper binary - exact, no clock involved; per family at its maximal size n): instructions(n) <= 8 x instructions(n/4) + 3e6 (linear 4x, quadratic 16x); S6 (families F10, a packet of 500 sets): instructions against the 6000-template cache <= 2 x instructions against a cache holding only the 500 ids used + 5e5. K0 = 128 KiB; K1, K2, K3 calibrated once (4x the maximum observed on the unchanged tree over the generated cases that avoid open findings; recorded in the source). A bound that fails only by what the open finding 'zero-length fields are materialised per record' explains (budget computed from the templates in effect and the set sizes) is forgiven with that signature; anything else is a violation. non-trivial = |buf| >= 1 KiB, or a header field announces >= 16x more records/bytes than present, or the case is an S3 doubling pair; distinct by digest.",
     assumptions: &[
         "memory cost is allocator traffic on the calling thread (deterministic); CPU cost is the instruction count of the measured call under callgrind (repeatable to within a few percent; skipped, and reported as skipped in the evidence, if valgrind is not installed); clocks are never an oracle",
         "constants K1..K3 are calibrated, not derived; the targeted defects exceed them by orders of magnitude",
@@ -235,7 +235,7 @@ fn instructions(name: &str, n: usize) -> Result<u64, String> {
 }
 
 /// S5 / S6 (CPU work - the part of the statement the allocation counters cannot see). The
-/// case names a family and a size n. S5: instructions(n) <= 6 x instructions(n/4) + 3e6
+/// case names a family and a size n. S5: instructions(n) <= 8 x instructions(n/4) + 3e6
 /// (linear: 4x, n log n: < 5x, quadratic: 16x). S6 (F10 families, a packet of 500 sets): instructions against a
 /// cache of 6000 templates <= 2 x instructions against a cache holding only the 500 ids
 /// the packet uses + 5e5 (hash maps are randomly seeded per process, so counts vary by some
@@ -278,12 +278,12 @@ fn oracle_cg(case: &Case) -> Outcome {
         eprintln!("DEBUG S5 {} n={}: {} -> {} instructions ({:.2}x)", name, n, small, big, big as f64 / small.max(1) as f64);
     }
     let zerolen = name.starts_with("F6");
-    if big > 6 * small + 3_000_000 {
+    if big > 8 * small + 3_000_000 {
         if zerolen {
             o.hit("zerolen:amplification");
         } else {
             return Outcome::violation(format!(
-                "S5 violated for family {}: {} -> {} input units, {} -> {} instructions in parse_bytes (more than 6x + 3e6 for 4x the input)",
+                "S5 violated for family {}: {} -> {} input units, {} -> {} instructions in parse_bytes (more than 8x + 3e6 for 4x the input)",
                 name,
                 n / 4,
                 n,
